@@ -221,16 +221,34 @@ def fam_geometric_big(r, n):
             out.add(w + bytes([b]) + w[:2])
     return norm(out)
 
+def fam_longcode(r, n):
+    # ~160 KB of text over 10 letters whose frequencies double, plus a few bytes that occur once: together with the weight-1 entries the
+    # Huffman / Hu-Tucker models give unused bytes, the rare symbols get codewords longer than the 16-bit decoding-table chunk, so
+    # decoding subtrees (DecodingTree) exist; fewer, longer strings when n is small so the text stays long enough
+    n = max(40, min(n, 16000))
+    letters = bytes(range(ord("a"), ord("a") + 10))
+    weights = [2 ** (10 - i) for i in range(10)]
+    avg = max(9, 165000 // n)
+    out = set()
+    while len(out) < n:
+        out.add(bytes(r.choices(letters, weights, k=r.randint(avg - avg // 4, avg + avg // 4))))
+    for b in (0x04, 0x7E, 0xA1, 0xFD):
+        w = bytes(r.choices(letters, weights, k=r.randint(2, 5)))
+        out.add(bytes([b]) + w)
+        out.add(w + bytes([b]) + w[:2])
+    return norm(out)
+
 FAMILIES = {
     "uniform26": lambda r, n: fam_uniform(r, n, "a26", 1, 12),
     "uniform2": lambda r, n: fam_uniform(r, n, "a2", 1, 14),
     "uniform4": lambda r, n: fam_uniform(r, n, "a4", 1, 10),
+    "uniform3": lambda r, n: fam_uniform(r, n, "a3", 3, 9),
     "uniform253": lambda r, n: fam_uniform(r, n, "a253", 1, 8),
     "mixed": lambda r, n: fam_uniform(r, n, "mixed", 1, 9),
     "words": fam_words, "urls": fam_urls, "numerals": fam_numerals, "chain": fam_chain, "near": fam_near,
     "len1": fam_len1, "samelen": fam_samelen, "vbyte": fam_vbyte, "longshort": fam_longshort, "long": fam_long,
     "repetitive": fam_repetitive, "copies": fam_copies, "extremes": fam_extremes, "norepeat": fam_norepeat,
-    "last_single": fam_last_single, "skewed": fam_skewed, "dense": fam_dense, "lcp128x": fam_lcp128x,
+    "last_single": fam_last_single, "skewed": fam_skewed, "dense": fam_dense, "lcp128x": fam_lcp128x, "longcode": fam_longcode,
 }
 
 def corner_corpus():
